@@ -34,6 +34,10 @@ func init() {
 }
 
 func runC10(c *an.Ctx) {
+	dnssvcWiring(c, "C10-R9", func(dst, src string) bool {
+		n := normName(dst) + " " + normName(src)
+		return strings.Contains(n, "accessmanager") || strings.Contains(n, "geoip")
+	}, 2)
 	// ---- C10-R9: builder wiring of the components this property rests on
 	c.Floor("C10-R9", 1)
 	builderWiring(c, "C10-R9", map[string][]string{
